@@ -20,26 +20,27 @@ import (
 // Reads deliver the scripted chunks, then block until Close (a custom endpoint is re-provided on EOF, so a finite
 // stream must end by blocking). Writes are recorded call by call; a write gate can block or fail the k-th call.
 type memConn struct {
-	mu          sync.Mutex
-	chunks      [][]byte
-	readGate    chan struct{} // closed => reads may proceed
-	closed      chan struct{}
-	closeCnt    int
-	writes      [][]byte
-	writeCnt    int
-	blockAt     int                   // index of the Write call that blocks until close (-1: none)
-	failAt      int                   // index of the Write call that fails (-1: none)
-	failLen     int                   // number of consecutive Write calls that fail, starting at failAt (0 means 1)
-	failTimeout bool                  // the failing Write calls report a time-out (net.Error) instead of a plain error
-	failNet     bool                  // ... or a non-time-out net.Error
-	pauseAt     int                   // index of the Write call that waits for `release` and then proceeds normally (-1: none)
-	release     chan struct{}         // closed by the harness to let the paused Write go on
-	delivered   chan struct{}         // closed when every chunk has been handed to the reader
-	endErr      error                 // returned by Read once the chunks are exhausted (nil: block until Close)
-	delays      map[int]time.Duration // pause before handing out the chunk with this index (counted from the first)
-	handed      int
-	beforeDone  int
-	before      func(idx int) // called (unlocked) before the chunk with this index is handed out: lets a scenario pace its input
+	mu           sync.Mutex
+	chunks       [][]byte
+	readGate     chan struct{} // closed => reads may proceed
+	closed       chan struct{}
+	closeCnt     int
+	writes       [][]byte
+	writeCnt     int
+	blockAt      int                   // index of the Write call that blocks until close (-1: none)
+	failAt       int                   // index of the Write call that fails (-1: none)
+	failLen      int                   // number of consecutive Write calls that fail, starting at failAt (0 means 1)
+	failTimeout  bool                  // the failing Write calls report a time-out (net.Error) instead of a plain error
+	failNet      bool                  // ... or a non-time-out net.Error
+	pauseAt      int                   // index of the Write call that waits for `release` and then proceeds normally (-1: none)
+	release      chan struct{}         // closed by the harness to let the paused Write go on
+	delivered    chan struct{}         // closed when every chunk has been handed to the reader
+	endErr       error                 // returned by Read once the chunks are exhausted (nil: block until Close)
+	endWaitWrite bool                  // the end of input is reported only after a Write call has begun
+	delays       map[int]time.Duration // pause before handing out the chunk with this index (counted from the first)
+	handed       int
+	beforeDone   int
+	before       func(idx int) // called (unlocked) before the chunk with this index is handed out: lets a scenario pace its input
 }
 
 func newMemConn(chunks [][]byte) *memConn {
@@ -95,6 +96,20 @@ func (c *memConn) Read(p []byte) (int, error) {
 	}
 	c.mu.Unlock()
 	if c.endErr != nil {
+		if c.endWaitWrite {
+			// the read side fails only once a Write call is in progress (it blocks, see blockAt): reader and writer are both in the transport
+			dl := time.Now().Add(2 * time.Second)
+			for time.Now().Before(dl) {
+				c.mu.Lock()
+				w := c.writeCnt
+				c.mu.Unlock()
+				if w > 0 {
+					break
+				}
+				time.Sleep(200 * time.Microsecond)
+			}
+			time.Sleep(2 * time.Millisecond)
+		}
 		return 0, c.endErr
 	}
 	<-c.closed
